@@ -57,6 +57,7 @@ fn session_strategy() -> impl Strategy<Value = (Vec<RawCycle>, Vec<u8>)> {
 fn build(r: &(Vec<RawCycle>, Vec<u8>), binary: bool) -> TextSessionCase {
     let (cycles, extras) = r;
     let mut steps = Vec::new();
+    let mut prev: Option<(String, Vec<String>, Pos)> = None;
     if extras[0] % 2 == 0 {
         steps.push(TStep::Ask("uci".into(), "uciok".into()));
     }
@@ -74,8 +75,19 @@ fn build(r: &(Vec<RawCycle>, Vec<u8>), binary: bool) -> TextSessionCase {
         if c.new_game {
             steps.push(TStep::Line("ucinewgame".into()));
         }
-        let (fen, moves, root, _) = build_root(c);
-        steps.push(TStep::Position { fen, moves });
+        let root = match (&prev, c.reuse) {
+            (Some((f, m, p)), 0) => {
+                steps.push(TStep::Position { fen: f.clone(), moves: m.clone() });
+                p.clone()
+            }
+            (Some((_, _, p)), 1) => p.clone(),
+            _ => {
+                let (fen, moves, root, _) = build_root(c);
+                steps.push(TStep::Position { fen: fen.clone(), moves: moves.clone() });
+                prev = Some((fen, moves, root.clone()));
+                root
+            }
+        };
         steps.push(TStep::Go(build_go(c, &root)));
     }
     TextSessionCase { steps, binary }
@@ -380,6 +392,12 @@ pub fn check_session(case: &TextSessionCase, ctx: &mut Ctx) -> Result<(), String
                 let l = g.to_line();
                 ch.line(&l)?;
                 trace.push(l.clone());
+                if let Some(ms) = g.ponderhit_after_ms {
+                    std::thread::sleep(std::time::Duration::from_millis(ms));
+                    ch.line("ponderhit")?;
+                    trace.push(format!("(after {ms} ms) ponderhit"));
+                    ctx.class("go_ponder_then_ponderhit");
+                }
                 if let Some(ms) = g.stop_after_ms {
                     std::thread::sleep(std::time::Duration::from_millis(ms));
                     ch.line("stop")?;
